@@ -393,6 +393,56 @@ def run_poly(c):
     return Batch(len(Qall), nt, fails, [], labels)
 
 
+# ------------------------------------------------------------------------------------------- every segment against every point
+@st.composite
+def table_case(draw, tier="quick"):
+    d = draw(st.sampled_from([2, 3, 3]))
+    k = draw(st.integers(1, 4))
+    return {"d": d, "segs": [[[draw(C.ints(5)) for _ in range(d)], [draw(C.ints(5)) for _ in range(d)]] for _ in range(k)], "ts": [draw(st.sampled_from([0, 1, 2, 3, -1, 4])) for _ in range(3)],
+            "axis": draw(st.sampled_from([-3, -3, 1]))}
+
+
+def run_table(c):
+    """k segments against m points in one call: segments.expand_dims(-3) (the form the library itself uses for its rays; or the equivalent
+    non-negative axis 1) puts the segments along a new axis, contains(points) is then the k x m table of the single answers"""
+    from geometer import SegmentCollection
+
+    d, segs = c["d"], c["segs"]
+    if d not in (2, 3) or c["axis"] not in (-3, 1) or any(len(x) != 2 or len(x[0]) != d or len(x[1]) != d for x in segs):
+        raise Skip("malformed")
+    S = [([Fraction(int(x)) for x in a], [Fraction(int(x)) for x in b]) for a, b in segs]
+    if any(a == b for a, b in S):
+        raise Skip("degenerate segment")
+    pts = []
+    for (a, b), t in zip(S, [Fraction(x, 2) for x in c["ts"]] * 2):
+        pts.append([x + t * (y - x) for x, y in zip(a, b)])
+    pts.append([S[0][0][i] + (1 if i == 0 else 2) for i in range(d)])
+
+    def on(a, b, p):
+        e = [y - x for x, y in zip(a, b)]
+        w = [y - x for x, y in zip(a, p)]
+        if any(e[i] * w[j] != e[j] * w[i] for i in range(d) for j in range(i)):
+            return False
+        dot = sum(x * y for x, y in zip(e, w))
+        return 0 <= dot <= sum(x * x for x in e)
+
+    truth = np.array([[on(a, b, p) for p in pts] for a, b in S])
+    coll = SegmentCollection(np.array([[[float(x) for x in a] + [1.0], [float(x) for x in b] + [1.0]] for a, b in S]))
+    P = PointCollection(np.array([[float(x) for x in p] + [1.0] for p in pts]))
+    site = f"table{d}:expand_dims({c['axis']})"
+    r, f = call(site, lambda: coll.expand_dims(c["axis"]).contains(P))
+    if f:
+        return Batch(truth.size, truth.size, [(f, c)], [])
+    r = np.asarray(r)
+    if r.shape != truth.shape:
+        return Batch(truth.size, truth.size, [(mismatch(site + ":shape", (r.shape, truth.shape)), c)], [])
+    fails = []
+    if not np.array_equal(r, truth):
+        i, j = [int(x[0]) for x in np.nonzero(r != truth)]
+        fails.append((mismatch(site + ":entry", (i, j, bool(truth[i, j]))), c))
+    return Batch(truth.size, truth.size, fails, [], {f"d{d}": 1, f"axis={c['axis']}": 1, "several-segments": int(len(S) > 1)})
+
+
 def drive_factory(strategy_fn, run_fn, name):
     """Hypothesis driver for laws whose run() returns a Batch (many query points per generated polygon)"""
 
@@ -461,7 +511,9 @@ LAWS = [
         rule="Polygon/Triangle/Rectangle/PolygonCollection.contains on the full (half-)lattice grid of the enlarged bounding box; 2D and embedded in 3D; rotations/reversal of the vertex cycle",
         mandatory=("vertex", "edge", "edge-extension", "level-with-vertex", "non-convex", "triangle", "reversed", "single-point-vs-polygons-in-two-planes", "non-dyadic:level-with-vertex", "non-dyadic:level-with-vertex:3d")),
 ]
-REPLAY = {"segment_contains": replay_batch(run_seg), "polygon_contains": replay_batch(run_poly)}
+LAWS.append(Law("segments_against_points_table", None, None, drive=drive_factory(table_case, run_table, "segments_against_points_table"), budget={"quick": 600, "thorough": 10000}, shard=200,
+                rule="SegmentCollection.expand_dims(-3 or 1).contains(PointCollection): the k x m table of the single answers, in the plane and in 3-space", mandatory=("d3", "axis=-3")))
+REPLAY = {"segment_contains": replay_batch(run_seg), "polygon_contains": replay_batch(run_poly), "segments_against_points_table": replay_batch(run_table)}
 
 
 # ------------------------------------------------------------------------------------------- equivalent ways of asking
